@@ -29,6 +29,7 @@ type ccase struct {
 	Tail   string      `json:"tail"`             // hex: the hostile tail
 	Chunks []int       `json:"chunks,omitempty"` // the tail is delivered in pieces cut at these offsets
 	Expect *expect     `json:"expect,omitempty"` // nil: several / unknown defects, judged on survival and collateral only
+	Tags   []string    `json:"tags,omitempty"`   // coverage labels computed by the generator (counted as streams_with_<tag>)
 	Desc   string      `json:"desc"`
 }
 
@@ -310,6 +311,217 @@ func (g *genCtx) openCases() []ccase {
 					}
 				}
 			})
+		}
+	}
+	return out
+}
+
+// ---------------------------------------------------------------------------------------------
+// OPEN capability space (judged on survival, collateral and reconnect only: RFC 5492 lets a speaker
+// ignore capabilities it does not know or has not configured)
+
+// singleFamilyCfgs / dualFamilyCfgs partition simpleCfgs by the number of address families configured
+// on the attacked peer.
+func splitCfgs() (single, dual []sessgen.Cfg) {
+	for _, c := range simpleCfgs {
+		if c.V4 && c.V6 {
+			dual = append(dual, c)
+		} else {
+			single = append(single, c)
+		}
+	}
+	return
+}
+
+func configured(c sessgen.Cfg, f wire.Family) bool {
+	return (f == wire.IPv4Unicast && c.V4) || (f == wire.IPv6Unicast && c.V6)
+}
+
+// openWith is the peer's own valid OPEN with its capabilities replaced by what edit returns.
+func openWith(c sessgen.Cfg, edit func(caps []wire.Capability) []wire.Capability) *wire.Open {
+	o := c.Open()
+	o.Caps = edit(o.Caps)
+	return o
+}
+
+func without(caps []wire.Capability, code uint8) []wire.Capability {
+	var out []wire.Capability
+	for _, x := range caps {
+		if x.Code != code {
+			out = append(out, x)
+		}
+	}
+	return out
+}
+
+// openCapCases: OPEN messages that are valid in every fixed field (version, AS, hold time, identifier) and
+// differ in their capabilities, delivered to a session in OpenSent. A part of them is followed by the
+// KEEPALIVE and a classic UPDATE of a peer that believes the session came up (what was negotiated from the
+// capabilities is then used in OpenConfirm / Established).
+func (g *genCtx) openCapCases(thorough bool) []ccase {
+	var out []ccase
+	single, dual := splitCfgs()
+	emit := func(gen string, c sessgen.Cfg, o *wire.Open, tags []string, desc string) {
+		if g.rng.IntN(4) == 0 {
+			o.CapsPerParam = !o.CapsPerParam
+		}
+		tail := o.Encode()
+		if _, err := wire.DecodeOpen(tail[wire.HeaderLen:]); err != nil || len(tail)-wire.HeaderLen-10 > 255 {
+			return // the optional parameters do not fit their one-octet length
+		}
+		if g.rng.IntN(2) == 0 {
+			// the conversation goes on: KEEPALIVE, then an UPDATE encoded the way the peer's own OPEN implies
+			c2 := c
+			for _, t := range o.AddPath() {
+				if t.Family == wire.IPv4Unicast {
+					c2.OfferV4 = t.Mode == 2 || t.Mode == 3
+				}
+			}
+			tail = append(tail, wire.Keepalive()...)
+			tail = append(tail, g.validUpdateBytes(c2)...)
+			desc += ", then KEEPALIVE and a classic UPDATE"
+			tags = append(tags, "open_caps_followed_by_keepalive_update")
+		}
+		cc := g.mk(gen, sess2.CutOpenSent, c, tail, nil, desc)
+		cc.Tags = append([]string{"open_caps"}, tags...)
+		out = append(out, cc)
+	}
+	// every peer kind: one single-family peer and one dual-family peer per point (thorough: every configuration)
+	peers := func() []sessgen.Cfg {
+		if thorough {
+			return simpleCfgs
+		}
+		return []sessgen.Cfg{single[g.rng.IntN(len(single))], dual[g.rng.IntN(len(dual))]}
+	}
+	afis := []uint16{1, 2, 0, 3, 25, 16388, 65535}
+	safis := []uint8{1, 2, 4, 128, 0, 255}
+	modes := []uint8{0, 1, 2, 3, 4, 255}
+	if !thorough {
+		afis, safis, modes = []uint16{1, 2, 0, 25, 65535}, []uint8{1, 2, 128}, []uint8{0, 1, 2, 3, 4}
+	}
+	famTags := func(prefix string, c sessgen.Cfg, f wire.Family) []string {
+		known := f == wire.IPv4Unicast || f == wire.IPv6Unicast
+		var t []string
+		switch {
+		case configured(c, f):
+			t = append(t, prefix+"_configured_family")
+		case known:
+			t = append(t, prefix+"_unconfigured_family")
+		case f.SAFI == 1:
+			t = append(t, prefix+"_unknown_afi_unicast")
+		default:
+			t = append(t, prefix+"_other_safi")
+		}
+		if !(c.V4 && c.V6) && !configured(c, f) && f.SAFI == 1 {
+			t = append(t, prefix+"_unicast_family_absent_on_single_family_peer")
+		}
+		return t
+	}
+	// (1) ADD-PATH (capability 69): one tuple over AFI × SAFI × send/receive
+	for _, afi := range afis {
+		for _, safi := range safis {
+			for _, mode := range modes {
+				for _, c := range peers() {
+					f := wire.Family{AFI: afi, SAFI: safi}
+					tp := wire.AddPathTuple{Family: f, Mode: mode}
+					var o *wire.Open
+					how := "alone"
+					switch g.rng.IntN(3) {
+					case 0: // the only ADD-PATH tuple
+						o = openWith(c, func(caps []wire.Capability) []wire.Capability {
+							return append(without(caps, wire.CapCodeAddPath), wire.CapAddPath(tp))
+						})
+					case 1: // behind / in front of the tuples of the configured families
+						how = "next to the tuples of the peer's own families"
+						o = openWith(c, func(caps []wire.Capability) []wire.Capability {
+							ts := []wire.AddPathTuple{{Family: wire.IPv4Unicast, Mode: 3}, tp}
+							if c.V6 {
+								ts = append(ts, wire.AddPathTuple{Family: wire.IPv6Unicast, Mode: uint8(1 + g.rng.IntN(3))})
+							}
+							g.rng.Shuffle(len(ts), func(i, j int) { ts[i], ts[j] = ts[j], ts[i] })
+							return append(without(caps, wire.CapCodeAddPath), wire.CapAddPath(ts...))
+						})
+					default: // with the multiprotocol capability of the same family in front
+						how = "with the multiprotocol capability of that family"
+						o = openWith(c, func(caps []wire.Capability) []wire.Capability {
+							return append(append(without(caps, wire.CapCodeAddPath), wire.CapMP(f)), wire.CapAddPath(tp))
+						})
+					}
+					emit("open-caps-addpath", c, o, famTags("open_addpath_tuple", c, f),
+						fmt.Sprintf("valid OPEN whose ADD-PATH capability has the tuple afi %d safi %d send/receive %d %s (peer families: v4=%v v6=%v)", afi, safi, mode, how, c.V4, c.V6))
+				}
+			}
+		}
+	}
+	// (2) multiprotocol (capability 1) and extended next hop (capability 5) over AFI × SAFI
+	for _, afi := range afis {
+		for _, safi := range safis {
+			for _, c := range peers() {
+				f := wire.Family{AFI: afi, SAFI: safi}
+				o := openWith(c, func(caps []wire.Capability) []wire.Capability { return append(caps, wire.CapMP(f)) })
+				if g.rng.IntN(3) == 0 { // the only multiprotocol capability
+					o = openWith(c, func(caps []wire.Capability) []wire.Capability { return append(without(caps, wire.CapCodeMP), wire.CapMP(f)) })
+				}
+				emit("open-caps-mp", c, o, famTags("open_mp_capability", c, f), fmt.Sprintf("valid OPEN with the multiprotocol capability afi %d safi %d (peer families: v4=%v v6=%v)", afi, safi, c.V4, c.V6))
+				nhafi := []uint16{1, 2, 0, 25}[g.rng.IntN(4)]
+				o = openWith(c, func(caps []wire.Capability) []wire.Capability {
+					return append(caps, wire.CapExtNextHop(wire.ExtNextHopTuple{AFI: afi, SAFI: uint16(safi), NextHopAFI: nhafi}))
+				})
+				emit("open-caps-extnh", c, o, famTags("open_extnh_tuple", c, f), fmt.Sprintf("valid OPEN with the extended next hop tuple afi %d safi %d next hop afi %d (peer families: v4=%v v6=%v)", afi, safi, nhafi, c.V4, c.V6))
+			}
+		}
+	}
+	// (3) the other capabilities: roles, 4-octet AS numbers, route refresh, unknown codes, repetitions, none at all
+	for _, c := range simpleCfgs {
+		for _, role := range []uint8{0, 1, 2, 3, 4, 5, 255} {
+			role := role
+			emit("open-caps-other", c, openWith(c, func(caps []wire.Capability) []wire.Capability { return append(caps, wire.CapRole(role)) }), []string{"open_role_capability"}, fmt.Sprintf("valid OPEN with role capability %d", role))
+		}
+		emit("open-caps-other", c, openWith(c, func(caps []wire.Capability) []wire.Capability { return append(caps, wire.CapRole(0), wire.CapRole(3)) }), []string{"open_capability_twice"}, "valid OPEN with two different role capabilities")
+		emit("open-caps-other", c, openWith(c, func(caps []wire.Capability) []wire.Capability { return nil }), []string{"open_no_capabilities"}, "valid OPEN without any capability")
+		emit("open-caps-other", c, openWith(c, func(caps []wire.Capability) []wire.Capability { return append(caps, caps...) }), []string{"open_capability_twice"}, "valid OPEN with every capability twice")
+		emit("open-caps-other", c, openWith(c, func(caps []wire.Capability) []wire.Capability {
+			return append(caps, wire.CapAddPath(wire.AddPathTuple{Family: wire.IPv4Unicast, Mode: 1}), wire.CapAddPath(wire.AddPathTuple{Family: wire.IPv4Unicast, Mode: 2}), wire.CapAddPath())
+		}), []string{"open_capability_twice"}, "valid OPEN with three more ADD-PATH capabilities (receive, send, empty)")
+		emit("open-caps-other", c, openWith(c, func(caps []wire.Capability) []wire.Capability {
+			return append(without(caps, wire.CapCodeAS4), wire.CapAS4(c.PeerAS()), wire.CapAS4(c.PeerAS()))
+		}), []string{"open_capability_twice"}, "valid OPEN with the 4-octet AS capability twice")
+		emit("open-caps-other", c, openWith(c, func(caps []wire.Capability) []wire.Capability { return append(caps, wire.CapRouteRefresh(), wire.Capability{Code: 70}, wire.Capability{Code: 128}) }), []string{"open_unknown_capability"}, "valid OPEN with route refresh capabilities (2, 70, 128)")
+		for k := 0; k < 4; k++ {
+			code := uint8(g.rng.IntN(256))
+			for code == wire.CapCodeMP || code == wire.CapCodeAS4 || code == wire.CapCodeAddPath || code == wire.CapCodeRole || code == wire.CapCodeExtNextHop {
+				code = uint8(g.rng.IntN(256))
+			}
+			v := make([]byte, g.rng.IntN(12))
+			for i := range v {
+				v[i] = byte(g.rng.IntN(256))
+			}
+			front := g.rng.IntN(2) == 0
+			emit("open-caps-other", c, openWith(c, func(caps []wire.Capability) []wire.Capability {
+				if front {
+					return append([]wire.Capability{{Code: code, Value: v}}, caps...)
+				}
+				return append(caps, wire.Capability{Code: code, Value: v})
+			}), []string{"open_unknown_capability"}, fmt.Sprintf("valid OPEN with the unknown capability %d of %d bytes", code, len(v)))
+		}
+		// a capability bio-rd knows, with a value size its definition rules out (the TLV itself is consistent)
+		for _, x := range []struct {
+			code uint8
+			lens []int
+		}{{wire.CapCodeMP, []int{0, 3, 5, 8}}, {wire.CapCodeAS4, []int{0, 2, 5, 8}}, {wire.CapCodeAddPath, []int{1, 3, 5, 7}}, {wire.CapCodeRole, []int{0, 2}}, {wire.CapCodeExtNextHop, []int{1, 5, 7}}} {
+			for _, l := range x.lens {
+				v := make([]byte, l)
+				for i := range v {
+					v[i] = []byte{0, 1, 2, 3}[g.rng.IntN(4)]
+				}
+				code, last := x.code, g.rng.IntN(2) == 0
+				emit("open-caps-size", c, openWith(c, func(caps []wire.Capability) []wire.Capability {
+					if last {
+						return append(without(caps, code), wire.Capability{Code: code, Value: v})
+					}
+					return append([]wire.Capability{{Code: code, Value: v}}, without(caps, code)...)
+				}), []string{"open_capability_with_wrong_value_size"}, fmt.Sprintf("OPEN whose capability %d has a value of %d bytes (last capability: %v)", code, l, last))
+			}
 		}
 	}
 	return out
@@ -725,6 +937,7 @@ func genCases(r *vf.Run) []ccase {
 	var out []ccase
 	out = append(out, g.headerCases(thorough)...)
 	out = append(out, g.openCases()...)
+	out = append(out, g.openCapCases(thorough)...)
 	out = append(out, g.updateCases(r.N(20, 400))...)
 	out = append(out, g.attrSweep(r.N(2, 16))...)
 	out = append(out, g.mpEmpty()...)
